@@ -536,6 +536,8 @@ class Command:
                     self.nextargpos = pos + 1
                 if add:
                     self.arguments[curarg["name"]] = avalue
+                    # a repeated tag replaces the previous one, parameter included
+                    self.extra_arguments.pop(curarg["name"], None)
                 break
 
             pos += 1
